@@ -1730,7 +1730,7 @@ class Parameter(_ParameterBase):
                 obj._param__private.values[self.name] = val
             else:
                 _old = obj._param__private.values.get(self.name, self.default)
-                if val is not _old:
+                if val is not _old or (update_ref is not None and ref is not None):
                     raise TypeError("Constant parameter '%s' cannot be modified" % name)
         else:
             if obj is None:
